@@ -7,6 +7,8 @@
 import z3, re, json, os, subprocess
 from .values import *
 from .gostate import *
+TDIV = z3.Function('tdiv', I, I, I)
+TMOD = z3.Function('tmod', I, I, I)
 from .goexec import GoExec, Frame, PathEnd, ReturnEx, PanicEx, BreakEx, ContinueEx, simp_bool, ite
 from .gospec import SpecMixin, SpecEnv
 from . import speclang
@@ -33,6 +35,15 @@ class JSTuple:
     def __init__(self, items):
         self.items = list(items)
 
+class JSQuot:
+    """x / y of two integers, kept symbolic: NaN iff x == 0 == y, +-Infinity iff y == 0 != x, else the (rounded) quotient"""
+    def __init__(self, x, y):
+        self.x, self.y = x, y
+
+class JSInf:
+    def __init__(self, sign):
+        self.sign = sign
+
 class JSUndef:
     pass
 UNDEF = JSUndef()
@@ -55,10 +66,12 @@ class JSExec(GoExec, SpecMixin, CallsMixin):
         GoExec.__init__(self, {'types': [], 'funcs': {}}, spec, mode=mode)
         self.js = jsdump
         self.jscontracts = {}
+        self.jsvariants = {}
         for c in spec.contracts:
             if c.kind == 'js':
                 ps = c.key.split()
                 self.jscontracts.setdefault(ps[1] if len(ps) >= 2 else ps[0], c)
+                self.jsvariants.setdefault(ps[1] if len(ps) >= 2 else ps[0], []).append(c)
         self.throws = []
         self.u32view = {}
         self.dmcache = {}
@@ -182,6 +195,12 @@ class JSExec(GoExec, SpecMixin, CallsMixin):
         if n == 'Infinity': raise Unsupported('Infinity')
         return JSFunc(n)
 
+    def js_SequenceExpression(self, st, e):
+        v = None
+        for x in e['expressions']:
+            v = self.ev(st, x)
+        return v
+
     def js_ArrayExpression(self, st, e):
         return JSTuple([self.ev(st, x) for x in e['elements']])
 
@@ -229,7 +248,34 @@ class JSExec(GoExec, SpecMixin, CallsMixin):
         if isinstance(b, MaybeNaN): nans.append(b.nan); b = b.val
         return a, b, nans
 
+    def quot_int(self, st, q):
+        """truncation of a finite quotient of two integers: the shared symbol tdiv (L-div: the correctly rounded double quotient of
+        integers below 2^53 truncates to the same integer as the exact quotient)"""
+        self.assumed.add('L-div: truncation of the rounded double quotient of two integers < 2^53 equals truncation of the exact quotient')
+        return self.tdiv(st, q.x, q.y)
+
+    def tdiv(self, st, x, y):
+        if self.mode == 'bv':
+            return z3.If(y == 0, z3.BitVecVal(0, 64), x / y)          # bvsdiv on sign-extended operands
+        t = TDIV(x, y)
+        st.assume(z3.Implies(y != 0, z3.And(
+            z3.Implies(z3.And(x >= 0, y > 0), z3.And(t >= 0, t <= x)), z3.Implies(z3.And(x <= 0, y < 0), z3.And(t >= 0, t <= -x)),
+            z3.Implies(z3.And(x >= 0, y < 0), z3.And(t <= 0, t >= -x)), z3.Implies(z3.And(x <= 0, y > 0), z3.And(t <= 0, t >= x)),
+            z3.Implies(y == 1, t == x), z3.Implies(y == -1, t == -x),
+            z3.Implies(z3.Or(y >= 2, y <= -2), z3.And(2 * t <= z3.If(x >= 0, x, -x), 2 * t >= -z3.If(x >= 0, x, -x))))))
+        return t
+
+    def tmod(self, st, x, y):
+        if self.mode == 'bv':
+            return z3.If(y == 0, z3.BitVecVal(0, 64), z3.SRem(x, y))
+        t = TMOD(x, y)
+        st.assume(z3.Implies(y != 0, z3.And(z3.Implies(x >= 0, z3.And(t >= 0, t <= x)), z3.Implies(x <= 0, z3.And(t <= 0, t >= x)),
+                                            z3.Implies(y > 0, z3.And(t < y, t > -y)), z3.Implies(y < 0, z3.And(t < -y, t > y)))))
+        return t
+
     def binop_js(self, st, op, a, b, line):
+        if isinstance(a, (JSQuot, JSInf)) or isinstance(b, (JSQuot, JSInf)):
+            return self.quot_op(st, op, a, b, line)
         if op in ('===', '!==', '==', '!='):
             if isinstance(a, JSUndef) or isinstance(b, JSUndef):
                 r = z3.BoolVal(isinstance(a, JSUndef) and isinstance(b, JSUndef))
@@ -245,6 +291,9 @@ class JSExec(GoExec, SpecMixin, CallsMixin):
                 return r if op in ('===', '==') else z3.Not(r)
             if isinstance(a, StrV) and isinstance(b, StrV):
                 r = self.str_eq(a, b)
+                return r if op in ('===', '==') else z3.Not(r)
+            if isinstance(a, JSFunc) and isinstance(b, JSFunc):
+                r = z3.BoolVal(a.name == b.name)
                 return r if op in ('===', '==') else z3.Not(r)
             a2, b2, nans = self.cmp_nan(a, b)
             r = a2 == b2
@@ -267,15 +316,31 @@ class JSExec(GoExec, SpecMixin, CallsMixin):
         if op == '-': return self.exact(st, a - b, line)
         if op == '*': return self.exact(st, self.mul(st, a, b, line), line)
         if op == '%':
-            # JS remainder has the sign of the dividend; for integers it is exact
-            if self.mode == 'bv':
-                return z3.SRem(a, b)
-            return a - b * z3.If(b > 0, z3.If(a >= 0, a / b, -((-a) / b)), z3.If(a >= 0, -(a / (-b)), (-a) / (-b)))
+            # JS remainder has the sign of the dividend (Go's %); NaN when the divisor is 0; exact on integers
+            return MaybeNaN(self.tmod(st, a, b), b == self.num(0))
         if op == '/':
-            raise Unsupported('division @%s (only inside Math.floor/ceil or >>0 contexts)' % line)
+            ac, bc = z3.simplify(a), z3.simplify(b)
+            if z3.is_int_value(bc) and bc.as_long() == 0 and z3.is_int_value(ac) and ac.as_long() != 0:
+                return JSInf(1 if ac.as_long() > 0 else -1)
+            if z3.is_bv_value(bc) and bc.as_long() == 0 and z3.is_bv_value(ac) and ac.as_signed_long() != 0:
+                return JSInf(1 if ac.as_signed_long() > 0 else -1)
+            return JSQuot(a, b)
         if self.mode == 'bv':
             return self.bitop_bv(op, a, b)
         return self.bitop_int(st, op, a, b, line)
+
+    def quot_op(self, st, op, a, b, line):
+        z = self.num(0)
+        if op in ('===', '!==') and isinstance(a, JSQuot) and isinstance(b, JSQuot) and a is b:
+            r = z3.Not(z3.And(a.x == z, a.y == z))            # q === q  <=>  q is not NaN
+            return r if op == '===' else z3.Not(r)
+        if op in ('===', '!==') and isinstance(a, JSQuot) and isinstance(b, JSInf):
+            r = z3.And(a.y == z, (a.x > z) if b.sign > 0 else (a.x < z))     # x / 0 is +Inf for x > 0 (y is +0: integers have no -0)
+            return r if op == '===' else z3.Not(r)
+        if op in ('>>', '>>>', '|') and isinstance(a, JSQuot):
+            t = z3.If(a.y == z, z, self.quot_int(st, a))       # ToInt32(NaN) = ToInt32(+-Inf) = 0
+            return self.binop_js(st, op, t, b, line)
+        raise Unsupported('operator %s on a quotient @%s' % (op, line))
 
     def mul(self, st, a, b, line):
         if self.mode == 'bv':
@@ -290,9 +355,10 @@ class JSExec(GoExec, SpecMixin, CallsMixin):
         are syntactically known (x % 2^k, x / 2^k of a bounded x); algebraic identities enter as lemmas."""
         p = PROD(a, b)
         ra, rb = self.range_of(a), self.range_of(b)
-        if ra and rb and ra[0] >= 0 and rb[0] >= 0:
-            st.assume(z3.And(p >= ra[0] * rb[0], p <= ra[1] * rb[1]))
-            self.know(p, ra[0] * rb[0], ra[1] * rb[1])
+        if ra and rb:
+            cs = [ra[0] * rb[0], ra[0] * rb[1], ra[1] * rb[0], ra[1] * rb[1]]
+            st.assume(z3.And(p >= min(cs), p <= max(cs)))
+            self.know(p, min(cs), max(cs))
         self.nonlinear = getattr(self, 'nonlinear', 0) + 1
         return p
 
@@ -472,6 +538,8 @@ class JSExec(GoExec, SpecMixin, CallsMixin):
             raise Unsupported('object has no modelled field %s' % name)
         if isinstance(obj, JSFunc):
             return JSFunc(obj.name + '.' + name)
+        if isinstance(obj, z3.ExprRef) and name == 'constructor' and not z3.is_bool(obj):
+            return JSFunc('Number')
         raise Unsupported('member .%s of %r @%s' % (name, obj, self.line(e)))
 
     def js_NewExpression(self, st, e):
@@ -480,6 +548,8 @@ class JSExec(GoExec, SpecMixin, CallsMixin):
         if isinstance(callee, JSFunc) and callee.name.startswith('ctor:'):
             kind = callee.name[5:]
             return self.construct(st, kind, args, self.line(e))
+        if isinstance(callee, JSFunc) and callee.name in ('$Int64', '$Uint64'):
+            return self.construct(st, callee.name[1:], args, self.line(e))
         if isinstance(callee, JSFunc) and callee.name == 'Uint8Array':
             n = args[0]
             ident = fresh('arr.id'); st.assume(ident > 0)
@@ -549,10 +619,15 @@ class JSExec(GoExec, SpecMixin, CallsMixin):
             raise Unsupported('method call .%s on %r @%s' % (mname, obj, line))
         if c['type'] == 'Identifier':
             name = c['name']
+            if name == '$min':
+                return self.math(st, 'min', args, line)
+            if name == '$imul':
+                self.assumed.add('Math.imul(a, b) is the int32 congruent to a*b modulo 2^32 (ECMA-262); the $imul fallback is verified separately')
+                return self.math(st, 'imul', args, line)
             if name == '$throwRuntimeError':
                 msg = self.ev(st, args[0])
                 raise PanicEx(msg.lit.decode() if isinstance(msg, StrV) and msg.lit is not None else 'runtime error')
-            if name in self.jscontracts and name != self.frame.key:
+            if name in self.jsvariants and name != self.frame.key.split()[0]:
                 return self.apply_js_contract(st, name, [self.ev(st, a) for a in args], line)
             raise Unsupported('call of %s @%s without contract' % (name, line))
         raise Unsupported('call expression @%s' % line)
@@ -589,7 +664,7 @@ class JSExec(GoExec, SpecMixin, CallsMixin):
         if name == 'max': return z3.If(vals[0] >= vals[1], vals[0], vals[1])
         if name == 'abs': return z3.If(vals[0] >= 0, vals[0], -vals[0])
         if name == 'imul':
-            return self.toint32(self.mul(st, self.toint32(vals[0]), self.toint32(vals[1]), line))
+            return self.toint32(self.mul(st, vals[0], vals[1], line))
         raise Unsupported('Math.%s' % name)
 
     def from_char_codes(self, st, vals):
@@ -619,7 +694,11 @@ class JSExec(GoExec, SpecMixin, CallsMixin):
 
     def jst_VariableDeclaration(self, st, s):
         for d in s['declarations']:
-            st.env[d['id']['name']] = self.ev(st, d['init']) if d.get('init') else UNDEF
+            n = d['id']['name']
+            if d.get('init'):
+                st.env[n] = self.ev(st, d['init'])
+            elif n not in st.env:          # `var x;` re-declaring a parameter keeps its value
+                st.env[n] = UNDEF
 
     def jst_ExpressionStatement(self, st, s):
         self.ev(st, s['expression'])
@@ -921,6 +1000,10 @@ class JSExec(GoExec, SpecMixin, CallsMixin):
         return loops
 
     def verify_js(self, c):
+        if c.get('trusted'):
+            self.assumed.add('trusted contract js %s: %s' % (c.key, c.get('trusted')[0].text.strip()))
+            fr = Frame(c.key, None, c); fr.n_paths = 0
+            return fr
         parts = c.key.split()
         file, name = (parts[0], parts[1]) if len(parts) >= 2 else (None, parts[0])
         fn, f = self.find_func(name, file)
@@ -1001,19 +1084,69 @@ class JSExec(GoExec, SpecMixin, CallsMixin):
         else:
             self.oblige(state, 'no-throw(%s)' % info, z3.BoolVal(False))
 
+    def contract_ptypes(self, c):
+        pt = {}
+        for cl in c.get('param'):
+            for part in cl.text.split(','):
+                n, t = part.split(':')
+                pt[n.strip()] = t.strip()
+        return pt
+
+    def arg_matches(self, v, ty):
+        if ty == 'i64': return isinstance(v, JSObj) and v.ctor == 'Int64'
+        if ty == 'u64': return isinstance(v, JSObj) and v.ctor == 'Uint64'
+        if ty in ('num', 'int', 'int32', 'uint32', 'byte', 'nat', 'rune32'): return isinstance(v, z3.ExprRef) and not z3.is_bool(v)
+        if ty == 'bool': return isinstance(v, z3.ExprRef) and z3.is_bool(v)
+        if ty == 'str': return isinstance(v, StrV)
+        return True
+
     def apply_js_contract(self, st, name, argv, line):
-        c = self.jscontracts[name]
-        fn, f = self.find_func(name)
-        binds = {p['name']: self.to_spec(st, v) for p, v in zip(fn['params'], argv)}
+        """modular call of a prelude function: the variant whose parameter kinds match the arguments is used"""
+        chosen = None
+        for c in self.jsvariants[name]:
+            fn, f = self.find_func(c.key.split()[1] if len(c.key.split()) >= 2 else name)
+            pt = self.contract_ptypes(c)
+            if fn and len(fn['params']) >= len(argv) and all(self.arg_matches(v, pt.get(p['name'], '?')) for p, v in zip(fn['params'], argv)):
+                cm = c.get('mode')[0].text.strip() if c.get('mode') else 'jn'
+                if cm == self.mode:
+                    chosen = (c, fn, pt); break
+        if chosen is None:
+            raise Unsupported('no contract variant of %s matches the arguments / mode %s @%s' % (name, self.mode, line))
+        c, fn, pt = chosen
+        self.used_contracts = getattr(self, 'used_contracts', set()) | {c.key}
+        binds = {}
+        if self.mode == 'bv':
+            binds['$bvw'] = 64; binds['$signed'] = True
+        for p, v in zip(fn['params'], argv):
+            binds[p['name']] = self.to_spec(st, v)
+            # the callee's parameter type is a precondition on the argument
+            ty = pt.get(p['name'])
+            rng = {'int32': (-TWO31, TWO31 - 1), 'uint32': (0, TWO32 - 1), 'byte': (0, 255), 'nat': (0, TWO53), 'num': (-TWO53, TWO53), 'int': (-TWO53, TWO53)}.get(ty)
+            if rng and isinstance(v, z3.ExprRef):
+                lo, hi = (self.num(rng[0]), self.num(rng[1]))
+                self.oblige(st, 'pre-type@call %s(%s)@%s' % (name, p['name'], line), z3.And(v >= lo, v <= hi), src=line)
         old = st.clone()
         envp = SpecEnv(st, binds, old)
         for cl in c.get('requires'):
             self.oblige(st, 'pre@call %s@%s' % (name, line), self.sev_bool(envp, cl.expr), src=line)
         tcs = [self.sev_bool(envp, cl.expr) for cl in c.get('throws_if')]
-        if tcs and self.fork(st, z3.Or(tcs)):
-            raise PanicEx('callee %s throws' % name)
-        rt = c.get('returns')
-        raise Unsupported('JS callee results not modelled yet')
+        if tcs and self.fork(st, z3.Or(tcs) if len(tcs) > 1 else tcs[0]):
+            raise PanicEx(c.get('throws_msg')[0].text.strip() if c.get('throws_msg') else 'callee %s throws' % name)
+        rt = c.get('returns')[0].text.strip() if c.get('returns') else None
+        if rt is None:
+            first = pt.get(fn['params'][0]['name']) if fn['params'] else None
+            rt = first if first in ('i64', 'u64') else 'num'
+        res = self.make_param(st, 'r.' + name.strip('$'), rt)
+        rb = dict(binds); rb['result'] = self.to_spec(st, res)
+        envq = SpecEnv(st, rb, old)
+        for cl in c.get('ensures'):
+            try:
+                st.assume(self.sev_bool(envq, cl.expr))
+            except Unsupported as ex:
+                if 'unknown name' in str(ex):
+                    continue          # clause about the callee's locals: not visible to callers
+                raise
+        return res
 
 def run_jsdump(files):
     root = os.path.dirname(os.path.dirname(os.path.dirname(os.path.abspath(__file__))))
